@@ -143,7 +143,7 @@ func VH_C13_queueFIFO() bool {
 	return true
 }
 
-//verif: replay=schedule unwind=8 cover=cancelled,served bounds="AskHub: 1 server, 1 asker whose context is cancelled concurrently (also while the handler runs): Deliver returns nil only after the handler finished, and an error only if no handler ever saw the request"
+// verif: replay=schedule unwind=8 cover=cancelled,served bounds="AskHub: 1 server, 1 asker whose context is cancelled concurrently (also while the handler runs): Deliver returns nil only after the handler finished, and an error only if no handler ever saw the request"
 func VH_C13_askHubDeliverCancel() bool {
 	h := NewAskHub[vAddr]()
 	ctxS, ctxD := vNewCtx(), vNewCtx()
